@@ -1238,8 +1238,12 @@ func conditionTypeAliasConverter(u any) (C Condition, converted bool) {
 		// genuine Condition, just pass it back
 		// with a thumbs-up ...
 		if co, isCond := u.(Condition); isCond {
-			C = co
-			converted = isCond
+			// a zero Condition is no more usable than a
+			// zero alias (see below): do not convert.
+			if !co.IsZero() {
+				C = co
+				converted = isCond
+			}
 			return
 		}
 
